@@ -632,10 +632,21 @@ Proof.
   intros A l i H. apply nth_error_Some in H. destruct (nth_error l i); [eauto | congruence].
 Qed.
 
+(* no F4(i)/(ii) defect fires on this answer (always true on the repaired tree) *)
+Definition no_quirk (cfg : config) (n : nat) (ans : answer) : Prop :=
+  (fix_i cfg = true \/ forall p, ans = APairs p -> sel_F4i p = false) /\
+  (fix_ii cfg = true \/ forall p, ans = APairs p -> sel_F4ii cfg n p = false).
+
+Lemma no_quirk_repaired : forall cfg n ans, fix_i cfg = true -> fix_ii cfg = true -> no_quirk cfg n ans.
+Proof. intros; split; auto. Qed.
+
+Lemma guard_nil : forall cfg, guard cfg [] = false.
+Proof. intros. unfold guard. destruct (fix_i cfg); reflexivity. Qed.
+
 Lemma step_form_m : forall cfg fq lqs m ds M ans,
   let st := mkState fq lqs (seq 0 m) in
   let n := length ds in
-  fix_i cfg = true -> fix_ii cfg = true -> 1 <= window cfg -> forallb snd ds = true ->
+  (is_init cfg st = false -> no_quirk cfg n ans) -> 1 <= window cfg -> forallb snd ds = true ->
   (is_init cfg st = true -> m = 0) ->
   (is_init cfg st = false ->
      scores_raise cfg st n = false /\
@@ -649,7 +660,7 @@ Lemma step_form_m : forall cfg fq lqs m ds M ans,
     cur (fst (step cfg st (ds, M, ans))) = seq 0 (m + cnt want tids0) /\
     (is_init cfg (fst (step cfg st (ds, M, ans))) = true -> m + cnt want tids0 = 0).
 Proof.
-  intros cfg fq lqs m ds M ans st n F1 F2 Hw Ab Hi0 Hs.
+  intros cfg fq lqs m ds M ans st n NQ Hw Ab Hi0 Hs.
   set (none := repeat (@None nat) n).
   assert (Ln : length none = n) by (subst none; apply repeat_length).
   assert (Above : forall i, i < n -> exists u, nth_error ds i = Some (u, true)).
@@ -688,7 +699,13 @@ Proof.
   - destruct (Hs eq_refl) as (Er & p & -> & Rr & Ne). clear Hs.
     rewrite Er.
     exists p.
-    assert (G : guard cfg p = (0 <? length p)) by (unfold guard; rewrite F1; reflexivity).
+    destruct (NQ eq_refl) as [NQ1 NQ2].
+    assert (G : guard cfg p = (0 <? length p)).
+    { destruct p as [|pc p']; [apply guard_nil|].
+      unfold guard. destruct (fix_i cfg) eqn:F1; [reflexivity|].
+      destruct NQ1 as [NQ1|NQ1]; [discriminate|].
+      specialize (NQ1 _ eq_refl). unfold sel_F4i in NQ1. simpl length in *. simpl Nat.ltb in *.
+      simpl in NQ1. apply negb_false_iff in NQ1. exact NQ1. }
     rewrite G.
     destruct p as [|pc p'] eqn:Ep.
     + (* no match at all: only possible without detections *)
@@ -716,7 +733,28 @@ Proof.
       { intros q x c K El. unfold is_init in K. rewrite El in K. simpl in K.
         destruct (push (window cfg) q x) eqn:E; [|discriminate]. eapply push_nonempty; eauto. }
       destruct (lq cfg) eqn:El.
-      * rewrite F2. subst st. simpl cur. rewrite add_new_fill. cbv beta iota. simpl fst; simpl snd.
+      * destruct (fix_ii cfg) eqn:F2.
+        2:{ (* unrepaired local queues: no detection is unmatched *)
+            destruct NQ2 as [NQ2|NQ2]; [discriminate|].
+            specialize (NQ2 _ eq_refl). unfold sel_F4ii in NQ2.
+            assert (Gt : guard cfg p = true).
+            { destruct p as [|pc0 p0]; [discriminate|].
+              unfold guard. destruct (fix_i cfg) eqn:F1; [reflexivity|].
+              destruct NQ1 as [NQ1|NQ1]; [discriminate|].
+              specialize (NQ1 _ eq_refl). unfold sel_F4i in NQ1. simpl in NQ1.
+              apply negb_false_iff in NQ1. exact NQ1. }
+            rewrite El, Gt in NQ2. simpl in NQ2. fold n in NQ2.
+            destruct (unmatched n p) eqn:Eu; [|discriminate].
+            simpl fst; simpl snd. exists (repeat false n).
+            destruct (fill_false n tids0 m) as [Ff Fc]. fold none. fold tids0.
+            split; [discriminate|]. split; [auto|]. split; [apply repeat_length|]. split.
+            { intros i Hi. rewrite nth_error_repeat by auto.
+              assert (In i (map fst p)) by (eapply unmatched_nil; eauto).
+              apply memb_In in H. rewrite H. reflexivity. }
+            rewrite Ff, Fc, Nat.add_0_r. split; [reflexivity|]. split; [reflexivity|].
+            unfold is_init. rewrite El. simpl cur. intros K.
+            destruct m; [|discriminate]. exfalso. unfold is_init in Ei. rewrite El in Ei. discriminate. }
+        subst st. simpl cur. rewrite add_new_fill. cbv beta iota. simpl fst; simpl snd.
         exists (want_lq ds (map fst p)).
         split; [discriminate|]. split; [auto|].
         split; [unfold want_lq; rewrite map_length, combine_length, seq_length; apply Nat.min_id|].
@@ -868,7 +906,8 @@ Definition scene_hyp (cfg : config) (x : state * owners * frame * outcome) : Pro
   scene_step_ok cfg x = true /\
   contract_step cfg (s_state x, s_frame x, s_out x) /\
   (is_init cfg (s_state x) = false ->
-   scores_raise cfg (s_state x) (length (f_dets (s_frame x))) = false).
+   scores_raise cfg (s_state x) (length (f_dets (s_frame x))) = false /\
+   no_quirk cfg (length (f_dets (s_frame x))) (f_answer (s_frame x))).
 
 (* conclusion at a call: it returns every detection, each with the track its
    animal owns in own' *)
@@ -881,15 +920,22 @@ Proof.
   intros [|[a t] own] [_ _ L _]; auto. specialize (L a t (or_introl eq_refl)). lia.
 Qed.
 
+Opaque step.
+
 Lemma step10 : forall cfg st own f,
-  fix_i cfg = true -> fix_ii cfg = true -> 1 <= window cfg ->
+  1 <= window cfg ->
   Inv10 cfg st own ->
   scene_hyp cfg (st, own, f, snd (step cfg st f)) ->
   let o := snd (step cfg st f) in
   let own' := owners_after own (length (cur st)) o in
   identity_step (st, own, f, o) own' /\ Inv10 cfg (fst (step cfg st f)) own' /\ incl own own'.
 Proof.
-  intros cfg st own f F1 F2 Hw ((Hc & Hi) & OI & H0) (SOK & CS & NR).
+  intros cfg st own f Hw ((Hc & Hi) & OI & H0) (SOK & CS & NRQ).
+  assert (NR : is_init cfg st = false -> scores_raise cfg st (length (f_dets f)) = false)
+    by (intros E; apply NRQ; auto).
+  assert (NQ : is_init cfg st = false -> no_quirk cfg (length (f_dets f)) (f_answer f))
+    by (intros E; apply NRQ; auto).
+  clear NRQ.
   assert (InvSt : Inv cfg st) by (split; auto).
   destruct st as [fq lqs c]. simpl in Hc. remember (length c) as m eqn:Em. subst c.
   destruct f as [[ds M] ans].
@@ -937,15 +983,19 @@ Proof.
       { apply Id. unfold rowtrack. rewrite Er0. apply own_of_In; [apply OI | auto]. }
       auto. }
   (* closed form of the step *)
-  destruct (step_form_m cfg fq lqs m ds M ans F1 F2 Hw Ab) as (p & want & P0 & P1 & Lw & Wv & Out & Cur & Ini).
+  destruct (step_form_m cfg fq lqs m ds M ans NQ Hw Ab) as (p & want & P0 & P1 & Lw & Wv & Out & Cur & Ini).
   { intros Ei. specialize (H0 Ei). simpl in H0. destruct m; [auto | discriminate]. }
   { intros Ei. destruct (Ans Ei) as (Er & p & Ea & Mp & _ & Ne). split; auto.
     exists p. split; auto. split; auto. destruct Mp as (_ & _ & C & _). auto. }
-  fold st in Out, Cur, Ini. fold n in Out, Cur, Ini, Lw, Wv.
   set (none := repeat (@None nat) n) in *.
   set (tids0 := assign p none) in *.
   set (tids := fill want tids0 m) in *.
   set (k := cnt want tids0) in *.
+  change (assign p (repeat None (length ds))) with tids0 in Out, Cur, Ini.
+  change (fill want tids0 m) with tids in Out.
+  change (cnt want tids0) with k in Cur, Ini.
+  change (length ds) with n in Lw, Wv.
+  fold st in Out, Cur, Ini.
   assert (Ln : length none = n) by (subst none; apply repeat_length).
   assert (L0 : length tids0 = n) by (subst tids0; rewrite assign_length; auto).
   assert (Lt : length tids = n) by (subst tids; rewrite fill_length; auto).
@@ -953,9 +1003,10 @@ Proof.
   assert (PI : NoDup (map fst p) /\ NoDup (map snd p) /\ (forall c, In c (map snd p) -> c < m) /\
                forall r c, In (r, c) p <-> rowtrack own us r = Some c).
   { destruct (is_init cfg st) eqn:Ei.
-    - rewrite (P0 eq_refl). simpl. split; [constructor|]. split; [constructor|]. split; [intros c []|].
-      assert (m = 0) by (specialize (H0 eq_refl); simpl in H0; destruct m; [auto | discriminate]).
-      subst m. rewrite (OwnInv_0 own OI). intros r c. unfold rowtrack. simpl.
+    - rewrite (P0 Ei). simpl. split; [constructor|]. split; [constructor|]. split; [intros c []|].
+      assert (Hm0 : m = 0) by (specialize (H0 eq_refl); simpl in H0; destruct m; [auto | discriminate]).
+      assert (Eo : own = []) by (apply OwnInv_0; rewrite <- Hm0; exact OI).
+      rewrite Eo. intros r c. unfold rowtrack. simpl.
       destruct (nth_error us r); split; try tauto; discriminate.
     - destruct (Ans eq_refl) as (_ & p1 & Ea & Mp & Id & _).
       assert (E : APairs p = APairs p1) by (rewrite <- Ea; symmetry; apply P1; auto).
@@ -984,14 +1035,18 @@ Proof.
   (* the output: all detections, in order *)
   assert (AllSome : forall x, In x (combine us tids) -> is_some (snd x) = true).
   { intros [u o] H. destruct (in_combine_nth _ _ _ _ _ _ H) as [i [A B]].
-    destruct (V i u A) as [t [E _]]. simpl. rewrite E in B. inversion B; subst. reflexivity. }
+    destruct (V i u A) as [t [E _]]. simpl. rewrite E in B. injection B as <-. reflexivity. }
   assert (OutE : output cfg ds tids = combine us tids).
   { unfold output. fold us. destruct (lq cfg); auto. apply filter_all. auto. }
   rewrite OutE in Out.
   set (out := combine us tids) in *.
   assert (Fo : map fst out = us) by (subst out; apply map_fst_combine; lia).
   assert (So : map snd out = tids) by (subst out; apply map_snd_combine; lia).
-  unfold owners_after. rewrite Out.
+  assert (Out' : snd (step cfg st (ds, M, ans)) = Ok out) by exact Out.
+  assert (Cur' : cur (fst (step cfg st (ds, M, ans))) = seq 0 (m + k)) by exact Cur.
+  assert (Ini' : is_init cfg (fst (step cfg st (ds, M, ans))) = true -> m + k = 0) by exact Ini.
+  clear Out Cur Ini. rename Out' into Out. rename Cur' into Cur. rename Ini' into Ini.
+  cbv zeta. unfold owners_after. rewrite Out.
   set (own' := own ++ new_owners m out).
   assert (InOut : forall u o, In (u, o) out -> exists t, o = Some t /\ In (u, t) own').
   { intros u o H. destruct (in_combine_nth _ _ _ _ _ _ H) as [i [A B]].
@@ -1049,4 +1104,131 @@ Proof.
            subst out. eapply nth_error_In. apply nth_error_combine; eauto.
     + intros K. rewrite Cur. rewrite (Ini K). reflexivity.
   - subst own'. apply incl_appl. apply incl_refl.
+Qed.
+
+(* ====================================================================== *)
+(* histories *)
+
+Lemma identity_step_mono : forall x own own', incl own own' -> identity_step x own -> identity_step x own'.
+Proof.
+  intros x own own' I (out & A & B & C). exists out. split; auto. split; auto.
+  intros u o H. destruct (C u o H) as [t [E K]]. exists t. split; auto.
+Qed.
+
+Lemma trace10_identity : forall cfg, 1 <= window cfg ->
+  forall h st own, Inv10 cfg st own ->
+  Forall (scene_hyp cfg) (trace10 cfg st own h) ->
+  exists ownF, incl own ownF /\ NoDup (map fst ownF) /\ NoDup (map snd ownF) /\
+               length (trace10 cfg st own h) = length h /\
+               Forall (fun x => identity_step x ownF) (trace10 cfg st own h).
+Proof.
+  intros cfg Hw. induction h as [|f r IH]; intros st own I H.
+  - exists own. destruct I as (_ & [O1 O2 _ _] & _). simpl. repeat split; auto. apply incl_refl.
+  - simpl in H. inversion H as [|x l Hx Hl]; subst. clear H.
+    destruct (step10 cfg st own f Hw I Hx) as (Id & I' & Inc).
+    cbv zeta in Id, I', Inc.
+    destruct Id as (out & Eo & Fo & Io). unfold s_out in Eo. simpl snd in Eo.
+    simpl trace10. rewrite Eo in *.
+    destruct (IH _ _ I' Hl) as (ownF & IncF & N1 & N2 & Len & All).
+    exists ownF. split; [eapply incl_tran; eauto|]. split; auto. split; auto.
+    split; [simpl; f_equal; exact Len|].
+    constructor; auto.
+    apply (identity_step_mono _ (owners_after own (length (cur st)) (Ok out))); auto.
+    exists out. unfold s_out. simpl snd. split; [reflexivity|]. split; auto.
+Qed.
+
+Transparent step.
+
+Lemma trace10_trace : forall cfg h st own,
+  map (fun x => (s_state x, s_frame x, s_out x)) (trace10 cfg st own h) = trace cfg st h.
+Proof.
+  induction h as [|f r IH]; intros st own; simpl; auto.
+  unfold s_state, s_frame, s_out at 1. simpl. f_equal.
+  destruct (snd (step cfg st f)); auto.
+Qed.
+
+Lemma Inv10_init : forall cfg, Inv10 cfg init [].
+Proof.
+  intros cfg. split; [apply Inv_init|]. split.
+  - constructor; simpl; [apply NoDup_nil | apply NoDup_nil | intros a t [] | intros t H; lia].
+  - reflexivity.
+Qed.
+
+(* the main theorem: any setting of the switches, no F4 defect firing *)
+Theorem identity_preserved_general : forall cfg h, 1 <= window cfg ->
+  Forall (scene_hyp cfg) (trace10 cfg init [] h) ->
+  exists track_of : owners,
+    NoDup (map fst track_of) /\ NoDup (map snd track_of) /\
+    length (run cfg h) = length h /\
+    Forall (fun x => identity_step x track_of) (trace10 cfg init [] h).
+Proof.
+  intros cfg h Hw H.
+  destruct (trace10_identity cfg Hw h init [] (Inv10_init cfg) H) as (ownF & _ & N1 & N2 & Len & All).
+  exists ownF. repeat split; auto.
+  unfold run. rewrite run_trace, <- (trace10_trace cfg h init []), !map_length. exact Len.
+Qed.
+
+(* the premise on the repaired tree: scene conditions + dominance, contract, no nanmax failure *)
+Definition scene_hyp_repaired (cfg : config) (x : state * owners * frame * outcome) : Prop :=
+  scene_step_ok cfg x = true /\
+  contract_step cfg (s_state x, s_frame x, s_out x) /\
+  (is_init cfg (s_state x) = false ->
+   scores_raise cfg (s_state x) (length (f_dets (s_frame x))) = false).
+
+Theorem identity_preserved_repaired : forall cfg h,
+  fix_i cfg = true -> fix_ii cfg = true -> 1 <= window cfg ->
+  Forall (scene_hyp_repaired cfg) (trace10 cfg init [] h) ->
+  exists track_of : owners,
+    NoDup (map fst track_of) /\ NoDup (map snd track_of) /\
+    length (run cfg h) = length h /\
+    Forall (fun x => identity_step x track_of) (trace10 cfg init [] h).
+Proof.
+  intros cfg h F1 F2 Hw H. apply identity_preserved_general; auto.
+  eapply Forall_impl; [|exact H]. intros x (A & B & C). split; auto. split; auto.
+  intros E. split; auto. apply no_quirk_repaired; auto.
+Qed.
+
+(* with fix_iii (or scoring_reduction = mean) get_scores never raises *)
+Lemma scores_raise_mean_or_fixed : forall cfg st n,
+  red_max cfg = false \/ fix_iii cfg = true -> scores_raise cfg st n = false.
+Proof.
+  intros cfg st n [H|H]; unfold scores_raise; rewrite H; [reflexivity|].
+  destruct (red_max cfg); reflexivity.
+Qed.
+
+(* ---------------------------------------------------------------------- *)
+(* the current tree: refuted by one animal seen in three frames *)
+
+Definition wit10_one_animal : list frame :=
+  [ ([(7, true)], [], AFail);
+    ([(7, true)], [[Q1]], APairs [(0, 0)]);
+    ([(7, true)], [[Q1]], APairs [(0, 0)]) ].
+
+Lemma wit10_premise : forall l,
+  let cfg := cfg_now l false 3 false in
+  Forall (scene_hyp_repaired cfg) (trace10 cfg init [] wit10_one_animal).
+Proof.
+  intros l cfg. subst cfg.
+  destruct l; vm_compute trace10;
+    repeat (apply Forall_cons; [split; [vm_compute; reflexivity|]; split;
+              [ unfold contract_step, answer_used, matcher_contract; simpl;
+                let U := fresh "U" in intros U; try discriminate U; apply contract_1x1
+              | intros _; vm_compute; reflexivity ] |]); apply Forall_nil.
+Qed.
+
+Lemma wit10_not_identity : forall l,
+  let cfg := cfg_now l false 3 false in
+  ~ exists track_of, Forall (fun x => identity_step x track_of) (trace10 cfg init [] wit10_one_animal).
+Proof.
+  intros l cfg [tr H]. subst cfg.
+  assert (K : exists x, In x (trace10 (cfg_now l false 3 false) init [] wit10_one_animal) /\
+                        (s_out x = Ok [] \/ s_out x = Ok [(7, None)]) /\
+                        uids (f_dets (s_frame x)) = [7]).
+  { destruct l; vm_compute; eexists; (split; [right; left; reflexivity|]); split; auto. }
+  destruct K as (x & Hx & Ho & Hu).
+  rewrite Forall_forall in H. destruct (H x Hx) as (out & Eo & Fo & Io).
+  rewrite Hu in Fo.
+  destruct Ho as [Ho|Ho]; rewrite Ho in Eo; inversion Eo; subst out.
+  - discriminate Fo.
+  - destruct (Io 7 None (or_introl eq_refl)) as [t [E _]]. discriminate E.
 Qed.
